@@ -632,7 +632,10 @@ Plan gen_c14(uint64_t seed, uint64_t run, const std::string& cfg) {
       int kind = common >= 0 && g.chance(0.8) ? common : (int)g.below(N_ENTRY_KINDS);
       if (shared >= 0 && g.chance(0.4)) kind = (int)g.below(2);
       bool big = g.chance(0.05);
-      slot += append_entry(g, pl, kind, t, slot, "A", z, 3, big ? 120 : 12, shared);
+      // builds without UBSan (P*, T*) also get tasks with huge coordinates (boolean clipping only): state that the library
+      // writes only for extreme input is then written while other tasks are in flight
+      bool huge = (cfg[0] == 'P' || cfg[0] == 'T') && (kind <= 1 || kind == 3 || kind == 11 || kind == 16) && g.chance(0.15);
+      slot += append_entry(g, pl, kind, t, slot, huge ? "A62" : "A", z, 3, big ? 120 : 12, shared);
       if (slot > 12) break;
     }
   }
